@@ -104,6 +104,7 @@ fn main() {
         "worker" => {
             match args[2].as_str() {
                 "C07" => props::c07::worker(&args[2..]),
+                "C14" => props::c14::worker(&args[2..]),
                 other => {
                     eprintln!("unknown worker {}", other);
                     std::process::exit(2)
